@@ -1,1 +1,6 @@
+pub mod c10;
+pub mod c11;
+pub mod c12;
+pub mod c14;
+pub mod c15;
 pub mod posprops;
